@@ -236,7 +236,12 @@ def gen_num_expr(c: Ctx, vars_, depth: int, in_binop: bool = False):
             return ["bin", "**", base, ex]
         op = c.pick(["+", "-", "*", "/", "+", "-", "*"])
         # a relational may stand for 0/1 as an operand of + - * and as a numerator
-        return ["bin", op, gen_num_expr(c, vars_, depth - 1, True), gen_num_expr(c, vars_, depth - 1, op != "/")]
+        lhs, rhs = gen_num_expr(c, vars_, depth - 1, True), gen_num_expr(c, vars_, depth - 1, op != "/")
+        if op == "/" and "b2n" in X.tags(rhs):
+            # (a 0/1 relational anywhere inside a divisor, e.g. through an integer-quotient shape: dividing by an
+            # indicator is no documented usage)
+            rhs = gen_leaf(c, vars_)
+        return ["bin", op, lhs, rhs]
     if hit(cfg.p_unary):
         return [c.pick(["neg", "neg", "neg", "pos"]), gen_num_expr(c, vars_, depth - 1)]
     if hit(cfg.p_call) and cfg.funcs:
